@@ -284,3 +284,54 @@ Definition calibrate (K : sconsts) (s : sensor) (volts p : Q) : outcome sensor :
   | Raise e => Raise e
   | Loops => Loops
   end.
+
+(* ------------------------------------------------------------------ *)
+(* One sensor object over its lifetime: the calls made on it, in order.
+   The object's state is [sensor] (voltage_in, and Vn once calibrate() has
+   assigned it); there is no other attribute.
+
+   `pressure` (a property getter) assigns nothing: the state after a read is
+   the state before it, and every read looks Vn / voltage_in up afresh
+   (`getattr(self, "Vn", self.voltage_in)` is evaluated on each call).
+   `calibrate` assigns self.Vn as its last action: if the division raises,
+   nothing has been assigned. *)
+
+Inductive sop :=
+| OpRead (volts : Q)               (* s.pressure      while the input reads [volts] *)
+| OpCalibrate (volts p : Q).       (* s.calibrate(p)  while the input reads [volts] *)
+
+Inductive sobs :=
+| ObsRead (r : outcome Q)          (* what the getter returned / raised *)
+| ObsCalibrate (r : outcome unit). (* calibrate returned None / raised *)
+
+Definition step_state (K : sconsts) (s : sensor) (o : sop) : sensor :=
+  match o with
+  | OpRead _ => s
+  | OpCalibrate volts p =>
+      match calibrate K s volts p with
+      | Val s' => s'
+      | _ => s
+      end
+  end.
+
+Definition step_obs (K : sconsts) (s : sensor) (o : sop) : sobs :=
+  match o with
+  | OpRead volts => ObsRead (pressure K s volts)
+  | OpCalibrate volts p =>
+      ObsCalibrate (match calibrate K s volts p with
+                    | Val _ => Val tt
+                    | Raise e => Raise e
+                    | Loops => Loops
+                    end)
+  end.
+
+(* the object after the calls [ops] *)
+Definition final_state (K : sconsts) (s : sensor) (ops : list sop) : sensor :=
+  fold_left (step_state K) ops s.
+
+(* what each of the calls [ops] returned *)
+Fixpoint observations (K : sconsts) (s : sensor) (ops : list sop) : list sobs :=
+  match ops with
+  | [] => []
+  | o :: r => step_obs K s o :: observations K (step_state K s o) r
+  end.
